@@ -62,6 +62,12 @@ Definition rgn_of_rects (l : list rect) : region :=
 (* ------------------------------------------------------------------ state *)
 Definition cursor_box : Type := (Z * Z * Z * Z)%type.      (* xhot, yhot, width, height *)
 
+(* deferral timer and scaled-screen bookkeeping of one client *)
+Record client_ext : Type := mkCExt {
+  xDefS : Z; xDefU : Z;            (* cl->startDeferring (tv_sec, tv_usec); tv_usec = 0: not deferring *)
+  xScaled : option (Z * Z)         (* size of cl->scaledScreen when it is not the screen itself *)
+}.
+
 Record client : Type := mkClient {
   cM : region;            (* modifiedRegion *)
   cC : region;            (* copyRegion *)
@@ -80,7 +86,15 @@ Record client : Type := mkClient {
   cLastErr : Z;           (* lastDesktopSizeChangeError *)
   cBpp : Z;               (* bytes per pixel of the client's format (fixed at connection) *)
   cPW : Z; cPH : Z;       (* size of the client's own picture *)
-  cPic : pic              (* the client's picture (decoded by the RFB semantics) *)
+  cPic : pic;             (* the client's picture (decoded by the RFB semantics) *)
+  cExt : client_ext
+}.
+
+(* deferUpdateTime, the (virtual) clock read by gettimeofday, the sizes of the scaledScreenNext chain *)
+Record state_ext : Type := mkSExt {
+  xDefer : Z;                      (* screen->deferUpdateTime in ms *)
+  xNowS : Z; xNowU : Z;            (* current time (tv_sec, tv_usec) *)
+  xChain : list (Z * Z)            (* scaled screens, newest first *)
 }.
 
 Record state : Type := mkState {
@@ -91,48 +105,62 @@ Record state : Type := mkState {
   sCurX : Z; sCurY : Z;            (* screen->cursorX/Y *)
   sMaxRects : Z;                   (* maxRectsPerUpdate *)
   sSliceH : Z;                     (* progressiveSliceHeight *)
-  sClients : list client
+  sClients : list client;
+  sExt : state_ext
 }.
 
 (* setters (records have no update syntax) *)
 Definition set_regions (c : client) (M C : region) (dx dy : Z) (R : region) : client :=
   mkClient M C dx dy R (cUseCopy c) (cShape c) (cCurChanged c) (cReady c) (cCurX c) (cCurY c)
            (cSliceY c) (cUseNewFB c) (cUseExt c) (cNewFBPending c) (cReqChange c) (cLastErr c)
-           (cBpp c) (cPW c) (cPH c) (cPic c).
+           (cBpp c) (cPW c) (cPH c) (cPic c) (cExt c).
 Definition set_M (c : client) (M : region) : client := set_regions c M (cC c) (cDX c) (cDY c) (cR c).
 Definition set_flags (c : client) (useCopy shape curChanged ready useNewFB useExt : bool) : client :=
   mkClient (cM c) (cC c) (cDX c) (cDY c) (cR c) useCopy shape curChanged ready (cCurX c) (cCurY c)
            (cSliceY c) useNewFB useExt (cNewFBPending c) (cReqChange c) (cLastErr c)
-           (cBpp c) (cPW c) (cPH c) (cPic c).
+           (cBpp c) (cPW c) (cPH c) (cPic c) (cExt c).
 Definition set_curpos (c : client) (x y : Z) : client :=
   mkClient (cM c) (cC c) (cDX c) (cDY c) (cR c) (cUseCopy c) (cShape c) (cCurChanged c) (cReady c) x y
            (cSliceY c) (cUseNewFB c) (cUseExt c) (cNewFBPending c) (cReqChange c) (cLastErr c)
-           (cBpp c) (cPW c) (cPH c) (cPic c).
+           (cBpp c) (cPW c) (cPH c) (cPic c) (cExt c).
 Definition set_slice (c : client) (y : Z) : client :=
   mkClient (cM c) (cC c) (cDX c) (cDY c) (cR c) (cUseCopy c) (cShape c) (cCurChanged c) (cReady c)
            (cCurX c) (cCurY c) y (cUseNewFB c) (cUseExt c) (cNewFBPending c) (cReqChange c) (cLastErr c)
-           (cBpp c) (cPW c) (cPH c) (cPic c).
+           (cBpp c) (cPW c) (cPH c) (cPic c) (cExt c).
 Definition set_size_state (c : client) (pending : bool) (req err : Z) : client :=
   mkClient (cM c) (cC c) (cDX c) (cDY c) (cR c) (cUseCopy c) (cShape c) (cCurChanged c) (cReady c)
            (cCurX c) (cCurY c) (cSliceY c) (cUseNewFB c) (cUseExt c) pending req err
-           (cBpp c) (cPW c) (cPH c) (cPic c).
+           (cBpp c) (cPW c) (cPH c) (cPic c) (cExt c).
 Definition set_pic (c : client) (w h : Z) (p : pic) : client :=
   mkClient (cM c) (cC c) (cDX c) (cDY c) (cR c) (cUseCopy c) (cShape c) (cCurChanged c) (cReady c)
            (cCurX c) (cCurY c) (cSliceY c) (cUseNewFB c) (cUseExt c) (cNewFBPending c) (cReqChange c)
-           (cLastErr c) (cBpp c) w h p.
+           (cLastErr c) (cBpp c) w h p (cExt c).
 
 Definition set_fb (st : state) (p : pic) : state :=
   mkState (sW st) (sH st) (sBpp st) (sFBid st) p (sCursor st) (sCurX st) (sCurY st)
-          (sMaxRects st) (sSliceH st) (sClients st).
+          (sMaxRects st) (sSliceH st) (sClients st) (sExt st).
 Definition set_clients (st : state) (l : list client) : state :=
   mkState (sW st) (sH st) (sBpp st) (sFBid st) (sFB st) (sCursor st) (sCurX st) (sCurY st)
-          (sMaxRects st) (sSliceH st) l.
+          (sMaxRects st) (sSliceH st) l (sExt st).
 Definition set_cursor (st : state) (c : option cursor_box) : state :=
   mkState (sW st) (sH st) (sBpp st) (sFBid st) (sFB st) c (sCurX st) (sCurY st)
-          (sMaxRects st) (sSliceH st) (sClients st).
+          (sMaxRects st) (sSliceH st) (sClients st) (sExt st).
 Definition set_knobs (st : state) (maxr slice : Z) : state :=
   mkState (sW st) (sH st) (sBpp st) (sFBid st) (sFB st) (sCursor st) (sCurX st) (sCurY st)
-          maxr slice (sClients st).
+          maxr slice (sClients st) (sExt st).
+
+Definition set_cext (c : client) (e : client_ext) : client :=
+  mkClient (cM c) (cC c) (cDX c) (cDY c) (cR c) (cUseCopy c) (cShape c) (cCurChanged c) (cReady c)
+           (cCurX c) (cCurY c) (cSliceY c) (cUseNewFB c) (cUseExt c) (cNewFBPending c) (cReqChange c)
+           (cLastErr c) (cBpp c) (cPW c) (cPH c) (cPic c) e.
+Definition set_bpp (c : client) (b : Z) : client :=
+  mkClient (cM c) (cC c) (cDX c) (cDY c) (cR c) (cUseCopy c) (cShape c) (cCurChanged c) (cReady c)
+           (cCurX c) (cCurY c) (cSliceY c) (cUseNewFB c) (cUseExt c) (cNewFBPending c) (cReqChange c)
+           (cLastErr c) b (cPW c) (cPH c) (cPic c) (cExt c).
+Definition set_sext (st : state) (e : state_ext) : state :=
+  mkState (sW st) (sH st) (sBpp st) (sFBid st) (sFB st) (sCursor st) (sCurX st) (sCurY st)
+          (sMaxRects st) (sSliceH st) (sClients st) e.
+Definition cScaled (c : client) : option (Z * Z) := xScaled (cExt c).
 
 Definition fbf (st : state) : Z -> Z -> Z := pic_get (sFB st).
 
@@ -164,15 +192,18 @@ Inductive wrect : Type :=
 | WCopy (x y w h sx sy : Z)            (* CopyRect with its source *)
 | WRaw (x y w h : Z)                   (* pixel rectangle *)
 | WNewFB (w h : Z)                     (* NewFBSize pseudo-rectangle *)
-| WExt (reason status w h : Z).        (* ExtendedDesktopSize pseudo-rectangle *)
+| WExt (reason status w h : Z)         (* ExtendedDesktopSize pseudo-rectangle *)
+| WResize (w h : Z).                  (* not a rectangle: the rfbResizeFrameBuffer message (SetScale reply) *)
 
-Definition wmsg : Type := (Z * list wrect)%type.   (* announced nRects, rectangles emitted *)
+Definition wmsg : Type := (Z * list wrect)%type.   (* announced nRects, rectangles emitted;
+                                                      (-1, [WResize w h]) = a rfbResizeFrameBuffer message *)
 
 (* ------------------------------------------------------------------ rfbNewClient *)
 Definition new_client (st : state) : client :=
   mkClient (rgn_create_rect 0 0 (sW st) (sH st)) rgn_empty 0 0 rgn_empty
            false false false false (sCurX st) (sCurY st) 0 false false false 0 0
-           (sBpp st) (sW st) (sH st) (pic_build (sW st) (sH st) (fun _ _ => 0)).
+           (sBpp st) (sW st) (sH st) (pic_build (sW st) (sH st) (fun _ _ => 0))
+           (mkCExt 0 0 None).
 
 (* ------------------------------------------------------------------ rfbMarkRectAsModified *)
 Definition mark_clip (W H x1 y1 x2 y2 : Z) : option rect :=
@@ -379,7 +410,11 @@ Definition coalesce (st : state) (U : region) : region :=
 
 (* the part of rfbSendFramebufferUpdate after the early return: C1 = C - M,
    U2 = (slice(M) + C1) & R *)
-Definition send_update (st : state) (c : client) (sy : Z) (C1 U2 : region) (sendShape : bool)
+(* [ap cf fb copies dx dy raws] = the client's picture after the rectangles of the update; for
+   the Raw encoding this is [client_apply]; any encoding whose pixel rectangles deliver the
+   framebuffer content gives the same function (C02_any_lossless_encoding) *)
+Definition send_update_gen (ap : (Z -> Z -> Z) -> (Z -> Z -> Z) -> list rect -> Z -> Z -> list rect -> Z -> Z -> Z)
+           (st : state) (c : client) (sy : Z) (C1 U2 : region) (sendShape : bool)
   : option (client * option wmsg) :=
   let M := cM c in
   let dx := cDX c in let dy := cDY c in
@@ -409,20 +444,39 @@ Definition send_update (st : state) (c : client) (sy : Z) (C1 U2 : region) (send
      && rects_inside (cPW c) (cPH c) copies
      && rects_inside (cPW c) (cPH c) (map (fun rc => rect_shift rc (- dx) (- dy)) copies)
   then
-    let cf := client_apply (pic_get (cPic c)) (fb_for st c) copies dx dy raws in
+    let cf := ap (pic_get (cPic c)) (fb_for st c) copies dx dy raws in
     Some (set_pic c3 (cPW c) (cPH c) (pic_build (cPW c) (cPH c) cf),
           Some (nrects, shapeRect ++ map (wcopy_of dx dy) copies ++ map wraw_of raws))
   else None.
 
-Definition send_client (st : state) (c : client) : option (client * option wmsg) :=
+Definition send_update := send_update_gen client_apply.
+
+(* scaled clients (cl->scaledScreen != cl->screen): only the size bookkeeping is modelled; their
+   requests and pixel updates go through the floating-point coordinate scaling of scale.c (property
+   C17) and are outside this model: explicit [None] *)
+Definition scaled_guard (c : client) : bool :=
+  match cScaled c with
+  | Some _ => negb (cUseNewFB c && cNewFBPending c)
+  | None => false
+  end.
+
+(* the size announced to a client: that of cl->scaledScreen *)
+Definition announced_size (st : state) (c : client) : Z * Z :=
+  match cScaled c with Some wh => wh | None => (sW st, sH st) end.
+
+Definition send_client_gen (ap : (Z -> Z -> Z) -> (Z -> Z -> Z) -> list rect -> Z -> Z -> list rect -> Z -> Z -> Z)
+           (st : state) (c : client) : option (client * option wmsg) :=
+  if scaled_guard c then None else
   if cUseNewFB c && cNewFBPending c then
-    (* size short-circuit: one pseudo-rectangle, the client's picture takes the new size *)
+    (* size short-circuit: one pseudo-rectangle; the (unscaled) picture the model keeps for the
+       client takes the framebuffer size, the message carries the size of cl->scaledScreen *)
     let W := sW st in let H := sH st in
+    let '(aw, ah) := announced_size st c in
     let c0 := set_size_state c false (if cUseExt c then 0 else cReqChange c)
                              (if cUseExt c then 0 else cLastErr c) in
     (* the client's picture changes (content undefined, here 0) only if the size does *)
     let c1 := client_resize c0 W H in
-    Some (c1, Some (1, [if cUseExt c then WExt (cReqChange c) (cLastErr c) W H else WNewFB W H]))
+    Some (c1, Some (1, [if cUseExt c then WExt (cReqChange c) (cLastErr c) aw ah else WNewFB aw ah]))
   else
   let sendShape := cShape c && cCurChanged c && cReady c in
   let C1 := r_sub (cC c) (cM c) in
@@ -432,11 +486,58 @@ Definition send_client (st : state) (c : client) : option (client * option wmsg)
      && (cShape c || ((cCurX c =? sCurX st) && (cCurY c =? sCurY st)))
      && negb sendShape
   then Some (set_slice (set_regions c (cM c) C1 (cDX c) (cDY c) (cR c)) sy, None)
-  else send_update st c sy C1 U2 sendShape.
+  else send_update_gen ap st c sy C1 U2 sendShape.
 
-(* rfbUpdateClient with deferUpdateTime = 0 *)
+Definition send_client := send_client_gen client_apply.
+
+(* rfbUpdateClient: the update is sent at once when deferUpdateTime = 0; otherwise the first call
+   records the time (tv_usec = 0 means "not deferring", hence the ++), later calls send once more than
+   deferUpdateTime ms have passed (or the clock went backwards) *)
+Definition elapsed_ms (st : state) (c : client) : Z :=
+  (xNowS (sExt st) - xDefS (cExt c)) * 1000 + Z.quot (xNowU (sExt st) - xDefU (cExt c)) 1000.
+
 Definition tick_client (st : state) (c : client) : option (client * option wmsg) :=
-  if pending st c && negb (rgn_is_empty (cR c)) then send_client st c else Some (c, None).
+  if scaled_guard c then None else
+  if pending st c && negb (rgn_is_empty (cR c)) then
+    if xDefer (sExt st) =? 0 then send_client st c
+    else if xDefU (cExt c) =? 0 then
+      let u := xNowU (sExt st) in
+      Some (set_cext c (mkCExt (xNowS (sExt st)) (if u =? 0 then 1 else u) (cScaled c)), None)
+    else if (xNowS (sExt st) <? xDefS (cExt c)) || (elapsed_ms st c >? xDefer (sExt st))
+         then send_client st (set_cext c (mkCExt (xDefS (cExt c)) 0 (cScaled c)))
+         else Some (c, None)
+  else Some (c, None).
+
+(* ------------------------------------------------------------------ SetPixelFormat *)
+(* a client that changes its pixel format mid-session: SetPixelFormat (format of the given depth,
+   laid out like the server's formats) immediately followed by a non-incremental request for the
+   whole screen - a conforming client does not rely on pixels it holds in the old format *)
+Definition setpf_client (st : state) (bpp : Z) (c : client) : client :=
+  let c1 := set_flags (set_bpp c bpp) (cUseCopy c) (cShape c) (cCurChanged c) true (cUseNewFB c) (cUseExt c) in
+  request_client (sW st) (sH st) false 0 0 (sW st) (sH st) c1.
+
+(* ------------------------------------------------------------------ SetScale *)
+(* rfbScalingSetup(cl, W/scale, H/scale) + rfbSendNewScaleSize: bookkeeping only *)
+Definition setscale_client (st : state) (n : Z) (c : client) : state_ext * client * option wmsg :=
+  let w := Z.quot (sW st) n in let h := Z.quot (sH st) n in
+  let e := sExt st in
+  let is_main := (w =? sW st) && (h =? sH st) in
+  let in_chain := existsb (fun '(a, b) => (a =? w) && (b =? h)) (xChain e) in
+  (* rfbScaledScreenAllocate refuses a zero dimension: things are left alone *)
+  let ok := is_main || in_chain || negb ((w =? 0) || (h =? 0)) in
+  let e' := if is_main || in_chain || negb ok then e
+            else mkSExt (xDefer e) (xNowS e) (xNowU e) ((w, h) :: xChain e) in
+  let c1 := if ok
+            then set_size_state (set_cext c (mkCExt (xDefS (cExt c)) (xDefU (cExt c))
+                                                    (if is_main then None else Some (w, h))))
+                                true (cReqChange c) (cLastErr c)
+            else c in
+  (* rfbSendNewScaleSize *)
+  if cUseNewFB c1 && cNewFBPending c1 then (e', c1, None)
+  else
+    let '(aw, ah) := announced_size st c1 in
+    (e', set_size_state c1 false (cReqChange c1) (cLastErr c1), Some (-1, [WResize aw ah])).
+
 
 (* the pixel value the application draws (the harness computes the same) *)
 Definition draw_value (bpp seed x y : Z) : Z :=
@@ -451,7 +552,7 @@ Definition newfb_client (w h : Z) (c : client) : client :=
 Definition newfb_state (st : state) (w h bpp seed : Z) : state :=
   mkState w h bpp (sFBid st + 1) (pic_build w h (draw_value bpp seed)) (sCursor st)
           (if sCurX st >=? w then w - 1 else sCurX st) (if sCurY st >=? h then h - 1 else sCurY st)
-          (sMaxRects st) (sSliceH st) (map (newfb_client w h) (sClients st)).
+          (sMaxRects st) (sSliceH st) (map (newfb_client w h) (sClients st)) (sExt st).
 
 (* ------------------------------------------------------------------ SetDesktopSize *)
 Definition setdesktop_one (requester : bool) (hookres : Z) (c : client) : client :=
@@ -487,7 +588,11 @@ Inductive op : Type :=
 | OpTick (c : nat)
 | OpSend (c : nat)
 | OpNewFB (w h bpp seed : Z)
-| OpSetDesktopSize (c : nat) (w h nscreens hookres : Z).
+| OpSetDesktopSize (c : nat) (w h nscreens hookres : Z)
+| OpTime (sec usec : Z)                       (* the clock read by gettimeofday *)
+| OpDefer (ms : Z)                            (* screen->deferUpdateTime *)
+| OpSetPixelFormat (c : nat) (bpp : Z)
+| OpSetScale (c : nat) (scale : Z).
 
 Fixpoint upd_nth {A} (n : nat) (l : list A) (f : A -> option (A * option wmsg))
   : option (list A * option wmsg) :=
@@ -546,7 +651,10 @@ Definition step (st : state) (o : op) : option (state * list (nat * wmsg)) :=
       | Some st' => Some (st', []) | None => None end
   | OpRequest c incr x y w h =>
       match upd_nth c (sClients st)
-                    (fun cl => Some (request_client (sW st) (sH st) incr x y w h cl, None)) with
+                    (fun cl => match cScaled cl with
+                               | Some _ => None       (* scaled coordinates: outside the model *)
+                               | None => Some (request_client (sW st) (sH st) incr x y w h cl, None)
+                               end) with
       | Some (l, _) => Some (set_clients st l, [])
       | None => None
       end
@@ -576,6 +684,33 @@ Definition step (st : state) (o : op) : option (state * list (nat * wmsg)) :=
         if ns =? 0 then Some (st, [])
         else Some (set_clients st (setdesktop_clients_at c hookres (sClients st)), [])
       else None
+  | OpTime sec usec =>
+      let e := sExt st in Some (set_sext st (mkSExt (xDefer e) sec usec (xChain e)), [])
+  | OpDefer ms =>
+      let e := sExt st in Some (set_sext st (mkSExt ms (xNowS e) (xNowU e) (xChain e)), [])
+  | OpSetPixelFormat c bpp =>
+      if (bpp =? 1) || (bpp =? 2) || (bpp =? 4) then
+        match upd_nth c (sClients st)
+                      (fun cl => match cScaled cl with
+                                 | Some _ => None
+                                 | None => Some (setpf_client st bpp cl, None)
+                                 end) with
+        | Some (l, _) => Some (set_clients st l, [])
+        | None => None
+        end
+      else None
+  | OpSetScale c n =>
+      if n <=? 0 then None      (* scale 0: the library closes the connection *)
+      else
+        match nth_error (sClients st) c with
+        | None => None
+        | Some cl =>
+            let '(e', cl', m) := setscale_client st n cl in
+            match upd_nth c (sClients st) (fun _ => Some (cl', None)) with
+            | Some (l, _) => Some (set_sext (set_clients st l) e', out1 c m)
+            | None => None
+            end
+        end
   end.
 
 Fixpoint run (st : state) (ops : list op) : option state :=
@@ -584,13 +719,15 @@ Fixpoint run (st : state) (ops : list op) : option state :=
   | o :: t => match step st o with Some (st', _) => run st' t | None => None end
   end.
 
-(* rfbGetScreen + calloc'ed framebuffer, no clients; the default cursor (myCursor), the default
+(* rfbGetScreen + calloc'ed framebuffer, no clients, deferUpdateTime 0 (set by the harness), clock
+   at (1000 s, 0), no scaled screens; the default cursor (myCursor), the default
    maxRectsPerUpdate and progressiveSliceHeight are re-read from main.c on every run *)
 Definition init_state (W H bpp : Z) : state :=
   mkState W H bpp 0 (pic_build W H (fun _ _ => 0))
           (Some (c02_default_cursor_xhot, c02_default_cursor_yhot,
                  c02_default_cursor_w, c02_default_cursor_h))
-          0 0 c02_default_max_rects c02_default_slice_height [].
+          0 0 c02_default_max_rects c02_default_slice_height []
+          (mkSExt 0 1000 0 []).
 
 (* ------------------------------------------------------------------ executable invariant *)
 (* membership read off the iterated rectangles (what the harness computes from the sra
